@@ -306,6 +306,29 @@ def check(ctx) -> None:
                     for x in own_nodes(gsc)
                 )
             ctx.check("C17.wiring", n, ok, f"{n.func.id} is constructed but does not reach the returned list of conditions", what=f"{n.func.id} appended to returned list")
+            if n.func.id in COUNTERS:
+                # the budget must be installed whenever its own setting asks for it: the construction
+                # may depend only on that setting, never on whether another budget is configured
+                argnames = {x.id for a in n.args for x in ast.walk(a) if isinstance(x, ast.Name)}
+                why = None
+                child = n
+                for a in _ancestors(n):
+                    if isinstance(a, ast.If):
+                        if any(child is s or _contains(s, child) for s in a.orelse):
+                            why = f"is in the else/elif branch of `if {norm(a.test)[:60]}`"
+                            break
+                        used = {x.id for x in ast.walk(a.test) if isinstance(x, ast.Name)}
+                        foreign = used - argnames - {"stopping", "config"}
+                        if foreign:
+                            why = f"is guarded by `{norm(a.test)[:60]}` which depends on {sorted(foreign)}"
+                            break
+                    if isinstance(a, (ast.For, ast.While, ast.Try, ast.With, ast.Match)):
+                        why = f"is nested in a {type(a).__name__} statement"
+                        break
+                    if a is gsc:
+                        break
+                    child = a
+                ctx.check("C17.wiring", n, why is None, f"{n.func.id} {why}: the budget is not installed for some configurations that set it", what=f"{n.func.id} depends only on its own setting", stmt=norm(n) + " [independent]")
 
     # ------------------------------------------------------------------ C17.hooks
     for hook, cb in (("before_search_start", "before_search_start"), ("after_search_iteration", "after_search_iteration")):
@@ -397,3 +420,14 @@ def _check_notify_all(ctx, fn, coll, cb):
         loops = {x.id for x in cfg.nodes if x.kind == "for" and norm(x.stmt.iter) == coll}
         ok = cfg.path([cfg.entry], [cfg.exit], avoid_nodes=loops, labels_excluded=("exc",)) is None
     ctx.check("C17.hooks", fn, ok, f"{qualname(fn)} does not call {cb} on every element of {coll}", what=f"{qualname(fn)} notifies all of {coll}")
+
+
+def _ancestors(n):
+    p = parent(n)
+    while p is not None:
+        yield p
+        p = parent(p)
+
+
+def _contains(root, node):
+    return any(x is node for x in ast.walk(root))
